@@ -412,7 +412,7 @@ verif_commit_done:;
     // computing the diadic valuation
     // right now we make the overwhelmingly likely assumption that the diadic valuation of
     // degree_full_resp is smaller than 60
-    exp_diadic_val_full_resp = two_adic_valuation(ibz_get(&degree_full_resp));
+    exp_diadic_val_full_resp = ibz_two_adic(&degree_full_resp);
     assert(exp_diadic_val_full_resp < 60);
     // removing the power of two part
     ibz_pow(&tmp, &ibz_const_two, exp_diadic_val_full_resp);
